@@ -41,6 +41,7 @@ type ConcRun struct {
 	tokens         map[int]uint64      // per reader task: continuation token
 	readers        map[int]*FeedReader // post-hoc verification state
 	sharedMap      string              // dataset whose deletion changed the deleted-datasets map in place
+	victimIDs      map[uint32]string   // C07c: internal id -> name of the datasets the scenario deletes
 }
 
 type readLookup struct {
@@ -283,6 +284,16 @@ func RunConcScenario(sc *Scenario) (vd *Verdict) {
 		}
 	}
 	time.Sleep(time.Nanosecond)
+	r.victimIDs = map[uint32]string{}
+	for _, ops := range sc.Tasks {
+		for _, op := range ops {
+			if op.K == "deleteDataset" {
+				if ds := h.Dataset(op.DS); ds != nil {
+					r.victimIDs[ds.InternalID] = op.DS
+				}
+			}
+		}
+	}
 	r.dupLatest = map[string]bool{}
 	for _, d := range m.DS {
 		rem := d.removable()
@@ -392,6 +403,12 @@ func RunConcScenario(sc *Scenario) (vd *Verdict) {
 				return
 			}
 		}
+	}
+	if sc.Property == "C07" {
+		if v := r.checkDeletedStayHidden(m); v != nil {
+			fail(v)
+		}
+		return
 	}
 	if sc.Property == "C19" {
 		r.Stats["catalogue_checks"]++
@@ -767,4 +784,163 @@ func raceSites(r string) string {
 	parts := strings.Split(r[i+2:], " / ")
 	sort.Strings(parts)
 	return strings.Join(parts, "/")
+}
+
+
+// checkDeletedStayHidden (profile C07c): clients delete different datasets at the same time while others write to
+// the datasets that stay. Afterwards, after a restart and after garbage collection nothing of a deleted dataset
+// may be visible, scoped or unscoped, and the datasets that stay hold exactly their acknowledged writes.
+func (r *ConcRun) checkDeletedStayHidden(m *Model) *Violation {
+	sc, h := r.Sc, r.H
+	for _, cos := range r.ops {
+		for _, co := range cos {
+			if co.op.K == "deleteDataset" && co.err != nil {
+				return viol("C07", "write", "mgmt-op-rejected:concurrent", "DeleteDataset(%s) failed while other clients deleted other datasets: %v", co.op.DS, co.err)
+			}
+			if isWrite(co.op.K) && co.err != nil {
+				return viol("C07", "write", "write-rejected:concurrent", "task %d op %d (%s) failed: %v", co.task, co.idx, co.op.K, co.err)
+			}
+		}
+	}
+	for _, co := range r.commitOf {
+		switch co.op.K {
+		case "batch":
+			m.Batch(co.op.DS, co.op.Ents)
+		case "txn":
+			for _, p := range co.op.Parts {
+				m.Batch(p.DS, p.Ents)
+			}
+		}
+	}
+	deletedIDs := map[uint32]string{}
+	for _, cos := range r.ops {
+		for _, co := range cos {
+			if co.op.K == "deleteDataset" {
+				m.Drop(co.op.DS)
+			}
+		}
+	}
+	pool, preds := collectNames(sc)
+	check := func(hub *Hub, when string) *Violation {
+		gone := hub.Store.VerifDeletedDatasets()
+		for id, name := range deletedIDs {
+			if !gone[id] {
+				return viol("C07", "deleted-set", "deleted-dataset-not-recorded:"+when, "%s: dataset %s (internal id %d) was deleted, but the set of deleted datasets is %v: its data is visible to every unscoped read and is never collected", when, name, id, gone)
+			}
+		}
+		var have []string
+		for _, n := range hub.Store.VerifDatasetNames() {
+			if n != "core.Dataset" {
+				have = append(have, n)
+			}
+		}
+		sort.Strings(have)
+		if strings.Join(have, ",") != strings.Join(m.Names(), ",") {
+			return viol("C07", "state", "dataset-list:"+when, "%s: datasets are %v, expected %v", when, have, m.Names())
+		}
+		for _, id := range pool {
+			if v := CheckMergedLookup(hub, m, id, nil); v != nil {
+				v.Property, v.Signature = "C07", "concurrent-deletes:"+when+":"+v.Signature
+				v.Message = when + ": " + v.Message
+				return v
+			}
+		}
+		for _, n := range m.Names() {
+			if v := CheckLatest(hub, m, n, pool, []int{2}); v != nil {
+				v.Property, v.Signature = "C07", "concurrent-deletes:"+when+":"+v.Signature
+				return v
+			}
+			if v := CheckFeed(hub, m, n, nil); v != nil {
+				v.Property, v.Signature = "C07", "concurrent-deletes:"+when+":"+v.Signature
+				return v
+			}
+		}
+		rv, _ := CheckRelations(hub, m, pool, preds, [][]string{nil}, nil, func(x *Violation) bool { return !IsKnown(x) })
+		if rv != nil {
+			rv.Property, rv.Signature = "C07", "concurrent-deletes:"+when+":"+rv.Signature
+			return rv
+		}
+		return nil
+	}
+	for id, name := range r.victimIDs {
+		deletedIDs[id] = name
+	}
+	if v := check(h, "after-the-deletes"); v != nil {
+		return v
+	}
+	if err := h.Close(); err != nil {
+		return viol("C07", "restart", "close-failed", "%v", err)
+	}
+	h2, err := OpenHub(h.Dir, sc.Knobs)
+	if err != nil {
+		return viol("C07", "restart", "reopen-failed", "%v", err)
+	}
+	r.H = h2
+	defer h2.Close()
+	r.Stats["restarts"]++
+	if v := check(h2, "after-restart"); v != nil {
+		return v
+	}
+	if err := server.NewGarbageCollector(h2.Store, h2.Env).Cleandeleted(); err != nil {
+		return viol("C07", "gc", "gc-failed", "%v", err)
+	}
+	r.Stats["gc_runs"]++
+	ids := map[uint32]bool{}
+	for id := range deletedIDs {
+		ids[id] = true
+	}
+	if v := rawNoDatasetKeys(h2, ids, "C07"); v != nil {
+		v.Signature = "concurrent-deletes:" + v.Signature
+		return v
+	}
+	return check(h2, "after-gc")
+}
+
+
+// genC07c: two or three clients delete different datasets at the same time while writers work on the datasets
+// that stay; all datasets share entity ids and reference each other's entities.
+func genC07c(g *G, sc *Scenario, tier string) {
+	c := g.baseStoreCfg(tier)
+	c.PNested = 0
+	c.MaxBatch = g.Range(1, 3)
+	c.Pool = poolNames(MkE, "e", g.Range(2, 4))
+	keep := []string{"dsA", "dsB"}[:g.Range(1, 2)]
+	victims := []string{"vX", "vY", "vZ"}[:g.Range(2, 3)]
+	sc.Datasets = append(append([]string(nil), keep...), victims...)
+	c.Datasets = sc.Datasets
+	m := NewModel()
+	for _, d := range sc.Datasets {
+		m.Create(d)
+	}
+	for _, d := range sc.Datasets {
+		for k := g.Range(1, 2); k > 0; k-- {
+			ents := g.batch(c, m, d)
+			m.Batch(d, ents)
+			sc.Ops = append(sc.Ops, Op{K: "batch", DS: d, Ents: ents})
+		}
+	}
+	if g.P(0.5) {
+		// one client deletes two datasets one after the other, the others one each
+		sc.Tasks = append(sc.Tasks, []Op{{K: "deleteDataset", DS: victims[0]}, {K: "deleteDataset", DS: victims[1]}})
+		for _, v := range victims[2:] {
+			sc.Tasks = append(sc.Tasks, []Op{{K: "deleteDataset", DS: v}})
+		}
+	} else {
+		for _, v := range victims {
+			sc.Tasks = append(sc.Tasks, []Op{{K: "deleteDataset", DS: v}})
+		}
+	}
+	c.Datasets = keep
+	for w := g.Range(1, 2); w > 0; w-- {
+		var ops []Op
+		for i := g.Range(1, 3); i > 0; i-- {
+			ds := g.Pick(keep)
+			ents := g.batch(c, m, ds)
+			uniqueMark(ents, fmt.Sprintf("w%d.%d", w, i))
+			ops = append(ops, Op{K: "batch", DS: ds, Ents: ents})
+		}
+		sc.Tasks = append(sc.Tasks, ops)
+	}
+	sc.Knobs["schedSeed"] = int64(g.r.Uint64() >> 1)
+	sc.Knobs["preemptPct"] = int64(g.PickInt([]int{20, 50, 80}))
 }
